@@ -35,6 +35,12 @@ class _Norm(ast.NodeTransformer):
         nm = f.attr if isinstance(f, ast.Attribute) else getattr(f, "id", None)
         if nm in COMMUTATIVE and len(n.args) == 2 and not n.keywords:
             n.args = sorted(n.args, key=ast.unparse)
+        # the two domain-safe spellings of an inverse cosine of a normalised dot product
+        if nm == "arccos" and len(n.args) == 1 and isinstance(n.args[0], ast.Call) and not n.keywords:
+            inner = n.args[0]
+            inm = inner.func.attr if isinstance(inner.func, ast.Attribute) else getattr(inner.func, "id", None)
+            if inm == "clip" and len(inner.args) == 3 and [ast.unparse(a) for a in inner.args[1:]] in (["-1", "1"], ["-1.0", "1.0"]):
+                return ast.copy_location(ast.Call(func=ast.Name(id="safeArccos", ctx=ast.Load()), args=[inner.args[0]], keywords=[]), n)
         return n
 
     def visit_BinOp(self, n):
